@@ -135,6 +135,7 @@ def writer_content_table(F, fn):
     for h, blks in loops:
         loop_blocks |= blks
     table = {}
+    in_closure = [False]
 
     def on_call(path, bb, t, name, args):
         n = name or ""
@@ -148,7 +149,29 @@ def writer_content_table(F, fn):
             else:
                 inner = val
             root, chain = field_chain(inner)
-            path.events.append((n.split("::")[-1], tuple(ga), tuple(chain), enc, bb in loop_blocks, bb, val))
+            path.events.append((n.split("::")[-1], tuple(ga), tuple(chain), enc, (bb in loop_blocks) or in_closure[0], bb, val))
+            return None
+        # a loop written as an iterator adapter: `d.iter().try_for_each(|v| dest.write_i32(*v))` — walk the closure body once
+        # as the body of a loop over the receiver's elements
+        if re.search(r"Iterator::(try_for_each|for_each|map|try_fold|fold|all|any|inspect)$", n) and len(args) >= 2:
+            cl = [a for a in args[1:] if a and a[0] == "agg" and str(a[1]).startswith("closure:")]
+            cf = F.fns.get(str(cl[0][1])[len("closure:"):]) if cl else None
+            if cf is not None and cf.body and not in_closure[0]:
+                from .walk import Path
+                item = ("f", ("v", ("call", "<std::slice::Iter<'a, T> as std::iter::Iterator>::next", (args[0],), ("closure", bb, 0)), "Some"), "0")
+                init = Path()
+                init.env[1] = cl[0]
+                init.env[2] = item
+                cw = Walker(cf, follow_errors=False, max_visits=2, max_paths=200)
+                got = []
+                in_closure[0] = True
+                try:
+                    cw.run(init=init, on_call=on_call, on_return=lambda p: got.append(list(p.events)))
+                finally:
+                    in_closure[0] = False
+                if got:
+                    best = max(got, key=len)
+                    path.events += [e[:5] + (bb,) + e[6:] for e in best]
         return None
 
     def on_return(path):
